@@ -414,8 +414,10 @@ CLAIMS["C01"]["text"] = CLAIMS["C01"]["text"] + (
     "finite plan of insert / extend / reserve / remove operations (fresh, well-behaved members; each entry followed by an "
     "unconditional poll) still drains the group: within 3*(steps of all members ever present)+1+2*|plan| rounds the plan is "
     "performed, the latest outcome is None and no member is left; C01_group_mix_delivers - for plans without remove every "
-    "member ever inserted has delivered its output / all its items in order (the version with remove is kept as "
-    "C01_group_mix_delivers_remove_statement, unproved: the delivery invariant of the existing proofs does not survive a removal).")
+    "member ever inserted has delivered its output / all its items in order; C01_group_mix_delivers_remove (+ _bound) - for plans "
+    "WITH remove every member ever inserted has delivered everything its script holds or was removed by the consumer (its "
+    "childDropped is followed by `removed key true` in the trace), within the same bound (invariant over scripts and trace "
+    "alone: delivered + still scripted = initially scripted; a well-behaved script answers Ready / None only on its last step).")
 CLAIMS["C16"]["text"] = CLAIMS["C16"]["text"] + (
     " One level of nesting (FcProps/C16nest.lean): theorem C16_nest - in the std strategy, in every reachable state of the "
     "lock-step nest model (Fc/Nest.lean; any outer family, any inner pattern, all scripts and histories) the selective-polling "
@@ -452,7 +454,7 @@ def _fam(fn, thm, what):
             "(tools/rs2lean.py -> lean/FcGen/KSrcFam*.lean), is proved to refine the model's Eng.poll / Eng.drop of that family - "
             + what + " Hypotheses: the combinator is well-formed (counters match the state table, buffers sized to the number of "
             "children), handed sub-wakers lie below the length, children answer like futures / streams without panicking, not yet "
-            "completed. The tuple containers remain tied differentially.")
+            "completed. (Tuple containers: see the tuple ties at the end of this text where they exist; otherwise tied differentially.)")
 CLAIMS["C04"]["text"] += _fam("Join::poll and the PinnedDrop destructor of Vec<Fut>::join() (src/future/join/vec.rs)", "FcProps/KTieJoinV.lean: TieJoinV.poll_tie, drop_tie, new_wf",
     "no panic, same outcome (the output vector on completion), same readiness set / states / output slots / pending counter, same scripts, handed wakers and event trace; the completing poll is compared through doneAgree (the crate moves the outputs out, the model keeps its copy).")
 CLAIMS["C02"]["text"] += " Static ties of destructors: TieJoinV.drop_tie, TieTryJoinV.drop_tie / drop_failed_tie, TieZipV.drop_tie (FcProps/KTie{JoinV,TryJoinV,ZipV}.lean): the translated PinnedDrop of the Vec join / try_join / zip emits exactly the model's drop events (outputs or buffered items released once, pending children dropped once)."
@@ -490,7 +492,7 @@ CLAIMS["C07"]["text"] += (
     "and counter; same scripts, handed wakers and event trace), drop_tie (the stored errors are released exactly once), "
     "drop_failed_tie (after the aggregate was returned nothing but the children is released). Hypotheses: slots Ready exactly "
     "where an error is stored, the counter counts them, children answer like futures without panicking, not completed. "
-    "The Vec (MaybeDone) and tuple variants remain tied differentially.")
+    "The tuple variant remains tied differentially; the Vec (MaybeDone) variant is tied statically as well, see below.")
 CLAIMS["C19"]["text"] += (
     " Static tie (FcProps/KTieWait.lean): WaitUntil::poll (src/future/wait_until.rs: the loop over the State enum with ready!) and "
     "WaitUntil::poll_next (src/stream/wait_until.rs), translated from the current source on every run (lean/FcGen/KSrcWait.lean), are "
@@ -499,6 +501,41 @@ CLAIMS["C19"]["text"] += (
     "which it resolves, the deadline is not polled again afterwards, same outcome, scripts, handed wakers and event trace, "
     "including the point where the deadline's output is dropped (the translator's rule for temporaries, trusted). Hypotheses: "
     "deadline = child 0, inner = child 1, children answer like a future / a stream without panicking, not completed.")
+
+
+# ---- session 5: the TUPLE containers (macro-generated) and race_ok over Vec
+def _tup(fam, thm, what):
+    return (" TUPLE container (" + thm + "): the tuple impls exist as Rust only after macro expansion, once per arity. On every run "
+            "tools/tuple_norm.py takes rustc's own expansion of the current source (cargo +nightly rustc -Zunpretty=expanded), cuts out "
+            "the struct, the poll function, the destructor and the constructor of each arity 1..12 of " + fam + ", normalises them into "
+            "container-style Rust over a const generic N (rules R1-R8 in that file, each checking the shape it rewrites: LEN = number "
+            "of children, the per-child index dispatch folded into one indexed body only if all arms agree up to the child's name "
+            "and position, per-slot runs of the destructor folded into loops, the tuple of MaybeUninit outputs read as an output "
+            "array), REQUIRES THE TWELVE ARITIES TO YIELD THE SAME TEXT, and hands it to tools/rs2lean.py (lean/FcGen/KSrcTup*.lean); "
+            + what + " for every N >= 1. A deviation of one arity, or a shape outside the rules, makes the tie `unavailable` (the "
+            "differential check decides), never silently wrong. Trusted in addition: rustc's expansion, the normalisation rules.")
+CLAIMS["C04"]["text"] += _tup("join (src/future/join/tuple.rs, Join1..Join12, also FutureExt::join)", "FcProps/KTieJoinT.lean: TieJoinT.poll_tie, poll_tie_strong, drop_tie, new_wf",
+    "the translated Join::poll (any_ready tested inside the loop, skip on !clear_ready || is_ready, completion = completed == LEN detected inside the loop, no consumed flag) and PinnedDrop are proved to refine Eng.poll / Eng.drop of the policy joinTuple")
+CLAIMS["C02"]["text"] += " Tuple containers: TieJoinT.drop_tie, TieTryJoinT.drop_tie / drop_failed_tie (FcProps/KTieJoinT.lean, KTieTryJoinT.lean; source = rustc's macro expansion normalised by tools/tuple_norm.py)."
+CLAIMS["C05"]["text"] += _tup("try_join (src/future/try_join/tuple.rs, TryJoin1..TryJoin12)", "FcProps/KTieTryJoinT.lean: TieTryJoinT.poll_tie, poll_tie_strong, drop_tie, drop_failed_tie, new_wf",
+    "the translated TryJoin::poll (incl. the return from inside the index dispatch on the first Err) and PinnedDrop are proved to refine Eng.poll / Eng.drop of the policy tryJoinTuple")
+CLAIMS["C08"]["text"] += _tup("merge (src/stream/merge/tuple.rs, Merge1..Merge12, also StreamExt::merge)", "FcProps/KTieMergeT.lean: TieMergeT.poll_tie, poll_tie_strong, new_wf",
+    "the translated Merge::poll_next (dispatch through #[repr(usize)] enum Indexes, completed: u8 read as a number, Indexer::new(0+1+..+1) = Indexer::new(N)) is proved to refine Eng.poll of the policy merge")
+CLAIMS["C17"]["text"] += " The tuple container is tied in the same way (FcProps/KTieMergeT.lean, source = rustc's macro expansion normalised by tools/tuple_norm.py): its scan order is Fix.rot as well."
+CLAIMS["C09"]["text"] += _tup("zip (src/stream/zip/tuple.rs, Zip1..Zip12, also StreamExt::zip)", "FcProps/KTieZipT.lean: TieZipT.poll_tie, poll_tie_strong, drop_tie, new_wf",
+    "the translated Zip::poll_next (children held as fields of the struct itself and read as one array, the row buffer <mod>::Output read as the array container's buffer, the dispatch `match index { <mod>::F => .. _ => unreachable!() }` folded behind assert!(index < N)) and PinnedDrop are proved to refine Eng.poll / Eng.drop of the policy zip")
+CLAIMS["C02"]["text"] += " And TieZipT.drop_tie (tuple zip: the buffered items of the unfinished row are released once)."
+CLAIMS["C07"]["text"] += (
+    " Static tie of the Vec variant (FcProps/KTieRaceOkV.lean): RaceOk::poll and the constructor of Vec<Fut>::race_ok() "
+    "(src/future/race_ok/vec/mod.rs) together with the helper enum MaybeDone (src/utils/poll_state/maybe_done.rs: new, poll, "
+    "take_ok, take_err - an enum with payload, translated, with generated drop glue), translated from the current source on "
+    "every run (lean/FcGen/KSrcFam6.lean), are proved to refine Eng.poll / Eng.drop of the policy raceOk false true: "
+    "TieRaceOkV.poll_tie / poll_tie_strong (no panic; Ok of the first success in index order in that same poll with the errors "
+    "left in their slots; the aggregate by position in the poll in which the last child fails, after which the slice is empty; "
+    "same scripts, handed wakers and trace), drop_tie (the struct's drop glue releases exactly the model's drop events - slot by "
+    "slot, i.e. a permutation of the model's order, the first exact statement is refuted in the file), drop_failed_tie, new_wf. "
+    "Trusted in addition: the translator's rules for payload enums, Pin::set (drop the old value, then write), drop glue of "
+    "owning locals, iter_pin_mut read by index.")
 
 # ---- the no_std / alloc-only flavour of the families that hold a waker table
 _DIRF = (" The same ties are proved for the no_std / alloc-only builds ({thm}): without the std feature the same family source is "
